@@ -253,6 +253,7 @@ theorem truerange_one_price_state (s : TrueRange F) (x v : F) :
 theorem faststochastic_one_price_state (s : FastStochastic F) (x v : F) :
     (s.nextBar (onePrice x v)).map (·.1) = (s.next x).map (·.1) := by
   unfold FastStochastic.nextBar FastStochastic.next onePrice
+  try simp only [gen_helper]
   cases h1 : Minimum.next s.minimum x <;> cases h2 : Maximum.next s.maximum x <;> simp [h1, h2]
 
 /-! ### TrueRange, ATR: outputs `max3 (x − x) |x − p| |x − p|` vs `|x − p|` (`x − x` vs `0.0` first) -/
@@ -298,6 +299,7 @@ theorem faststochastic_one_price_of_laws (s : FastStochastic F) (x v : F)
     (hsymm : ∀ a b : F, Scalar.beq a b = Scalar.beq b a) :
     s.nextBar (onePrice x v) = s.next x := by
   unfold FastStochastic.nextBar FastStochastic.next onePrice
+  try simp only [gen_helper]
   cases h1 : Minimum.next s.minimum x with
   | none => cases h2 : Maximum.next s.maximum x <;> simp [h1, h2]
   | some r1 =>
@@ -309,6 +311,7 @@ theorem slowstochastic_one_price_of_laws (s : SlowStochastic F) (x v : F)
     (hsymm : ∀ a b : F, Scalar.beq a b = Scalar.beq b a) :
     s.nextBar (onePrice x v) = s.next x := by
   unfold SlowStochastic.nextBar SlowStochastic.next
+  try simp only [gen_helper]
   rw [faststochastic_one_price_of_laws s.fast_stochastic x v hsymm]
 
 /-! ### KeltnerChannel: the EMA is fed the typical price `(x + x + x) / 3.0` vs `x`; the ATR as above -/
